@@ -140,6 +140,7 @@ func record(args []string) error {
 		IPP bool     `json:"ipp"`
 	}
 	accIP, accIPP := 0, 0
+	var histIP, histNames []string
 	for i := 0; i < nIP; i++ {
 		s := genIP(rng)
 		if !dd.Add([]byte(s)) {
@@ -149,6 +150,9 @@ func record(args []string) error {
 		g2, w2, what2 := try(pIPPort, s)
 		c.check(pIP, s, s, nil, nil)
 		c.check(pIPPort, s, s, nil, nil)
+		if len(histIP) < c03.HistoryCap()/4 {
+			histIP = append(histIP, s)
+		}
 		if w1 {
 			accIP++
 		}
@@ -182,6 +186,9 @@ func record(args []string) error {
 		if !dd.Add([]byte("n" + s)) {
 			continue
 		}
+		if len(histNames) < c03.HistoryCap()/4 {
+			histNames = append(histNames, s)
+		}
 		gh, _, whatH := try(pHost, s)
 		gl, _, whatL := try(pLabel, s)
 		c.check(pHost, s, s, nil, nil)
@@ -203,6 +210,9 @@ func record(args []string) error {
 			trN.Emit(nameEv{K: "label", T: c03.EncodeRuns(c03.Abstract(s)), V: gl})
 		}
 	}
+	c.stage = "T history"
+	c.historyIP(histIP, vh.Rand(22))
+	c.historyNames(histNames, vh.Rand(24))
 	if err := trIP.Close(); err != nil {
 		return err
 	}
